@@ -300,11 +300,14 @@ def uncertainty_tokenizer(input_string: str) -> Generator[TokenInfo, None, None]
             if "." not in std_dev.string:
                 # the digits in parentheses are an uncertainty in the last digits
                 # of the nominal value: 2.00(3) is 2.00 +/- 0.03, 12.3(45) is 12.3 +/- 4.5
-                mantissa = nominal_value.string.lower().partition("e")[0]
+                mantissa, _, exponent = nominal_value.string.lower().partition("e")
                 decimals = len(mantissa.partition(".")[2])
                 digits = std_dev.string.rjust(decimals + 1, "0")
                 if decimals:
                     digits = digits[:-decimals] + "." + digits[-decimals:]
+                if exponent:
+                    # 1.50e3(2): the last digits of the value are those of its mantissa
+                    digits += "e" + exponent
                 std_dev = tokenize.TokenInfo(
                     type=std_dev.type,
                     string=digits,
